@@ -354,7 +354,7 @@ def _run_loss(case, lose_at):
 
         def do(op):
             k = op[0]
-            if k in ('call', 'call_sync', 'call_noreply') and closing:
+            if k in ('call', 'call_sync', 'call_noreply', 'lib_call') and closing:
                 return False    # nobody issues calls on a connection they asked to be closed
             if k == 'close_req':
                 # disconnect() was called; the transport has not closed yet
@@ -378,6 +378,38 @@ def _run_loss(case, lose_at):
                 d.addBoth(c['results'].append)
                 c['d'] = d
                 sent = [m for kk, m in rig.sent_messages() if kk == 'msg']
+                c['serial'] = sent[0]['serial']
+                calls.append(c)
+            elif k == 'lib_call':
+                # calls the library issues on the application's behalf inside its own operations (RemoveMatch for
+                # delMatch, RequestName, ReleaseName, GetNameOwner, AddMatch, Introspect): the Deferred the application
+                # holds is an outstanding call like any other
+                which = op[1] % 6
+                if which == 0:
+                    got = []
+                    rig.conn.addMatch(lambda m: None, interface='org.verif.Known', member='Sig').addBoth(got.append)
+                    sent = [m for kk, m in rig.sent_messages() if kk == 'msg']
+                    N.deliver(rig.conn, R.encode_message(2, 907, {5: sent[0]['serial']}))
+                    if len(got) != 1 or not isinstance(got[0], int):
+                        out.append(Disc('loss.addMatch-result', repr(got)))
+                        return
+                    d = rig.conn.delMatch(got[0])
+                elif which == 1:
+                    d = rig.conn.requestBusName('org.verif.Mine')
+                elif which == 2:
+                    d = rig.conn.releaseBusName('org.verif.Mine')
+                elif which == 3:
+                    d = rig.conn.getNameOwner('org.verif.Peer')
+                elif which == 4:
+                    d = rig.conn.addMatch(lambda m: None, interface='org.verif.Known', member='Sig2')
+                else:
+                    d = rig.conn.getRemoteObject('org.verif.Peer', '/pending')
+                c = {'results': [], 'done': False, 'timeout': None, 'deadline': None, 'lib': which}
+                d.addBoth(c['results'].append)
+                sent = [m for kk, m in rig.sent_messages() if kk == 'msg']
+                if len(sent) != 1:
+                    out.append(Disc('loss.library-call-wrote', 'operation %d wrote %d messages' % (which, len(sent))))
+                    return
                 c['serial'] = sent[0]['serial']
                 calls.append(c)
             elif k == 'call':
@@ -536,6 +568,12 @@ def _run_loss(case, lose_at):
             if len(r) != before[id(c)] + 1:
                 out.append(Disc('loss.outstanding-call-%s' % ('not-failed' if len(r) == before[id(c)] else 'fired-twice'),
                                 'call serial %d (timeout %r): results %r' % (c['serial'], c['timeout'], r)))
+            elif c.get('lib') == 5:
+                # getRemoteObject is not a call but an operation built on one: it reports its Introspect call's failure
+                # in its own words (IntrospectionFailed naming the reason); what is required is that it fails
+                from twisted.python.failure import Failure
+                if not isinstance(r[-1], Failure):
+                    out.append(Disc('loss.pending-getRemoteObject-succeeds', repr(r[-1])))
             elif r[-1] is not reason:
                 out.append(Disc('loss.call-wrong-reason', repr(r[-1])))
         for c in calls:
@@ -603,6 +641,10 @@ def classify_loss(case):
         labels.append('reply_nobody_waits_for')
     if any(o[0] == 'close_req' for o in ops):
         labels.append('close_requested_first')
+    for o in ops:
+        if o[0] == 'lib_call':
+            labels.append('library_issued_call_' + ['delMatch', 'requestBusName', 'releaseBusName', 'getNameOwner', 'addMatch',
+                                                    'introspect'][o[1] % 6])
     return ('call_with_timer' in labels or 'proxy_callback' in labels), sorted(set(labels))
 
 
@@ -614,7 +656,8 @@ def loss_case(draw, tier):
     for _ in range(n):
         k = draw(st.sampled_from(['call', 'call', 'reply', 'error_reply', 'conn_cb', 'conn_cb_cancel', 'proxy', 'proxy', 'proxy_cb',
                                   'proxy_cb', 'proxy_cb_cancel', 'proxy_signal', 'advance', 'cancel_call', 'call_noreply',
-                                  'call_sync', 'close_req' if draw(st.integers(0, 2)) == 0 else 'call_sync', 'stale_reply']))
+                                  'call_sync', 'close_req' if draw(st.integers(0, 2)) == 0 else 'call_sync', 'stale_reply',
+                                  'lib_call']))
         if k == 'call':
             if ncalls >= 4:
                 continue
@@ -628,7 +671,8 @@ def loss_case(draw, tier):
             ops.append(['advance', draw(st.sampled_from([1, 4, 6, 30]))])
         elif k in ('call_noreply', 'call_sync'):
             ops.append([k, draw(st.sampled_from([None, 5, 0, 30]))])
-        elif k in ('reply', 'error_reply', 'conn_cb_cancel', 'proxy_cb', 'proxy_cb_cancel', 'proxy_signal', 'cancel_call', 'stale_reply'):
+        elif k in ('reply', 'error_reply', 'conn_cb_cancel', 'proxy_cb', 'proxy_cb_cancel', 'proxy_signal', 'cancel_call', 'stale_reply',
+                   'lib_call'):
             ops.append([k, draw(st.integers(0, 5))])
         else:
             ops.append([k])
@@ -647,6 +691,9 @@ def enum_loss(tier):
     yield {'ops': [['stale_reply', 0], ['call', 30], ['call', None], ['conn_cb']]}
     yield {'ops': [['call', 1], ['advance', 4], ['stale_reply', 0], ['call', 30], ['call', None]]}
     yield {'ops': [['call', None], ['reply', 0], ['stale_reply', 0], ['call', 5], ['call', None], ['conn_cb']]}
+    # calls issued inside the library's own operations, in flight at the loss
+    for which in range(6):
+        yield {'ops': [['call', None], ['lib_call', which], ['conn_cb'], ['call', 5]]}
     # fire-and-forget calls with and without a deadline next to ordinary ones
     yield {'ops': [['call_noreply', 5], ['call', 10], ['call_noreply', None], ['call_noreply', 30], ['conn_cb']]}
     # the caller cancels pending calls (with and without deadline) before the connection goes down
